@@ -13,6 +13,7 @@ import (
 	"time"
 
 	"github.com/iotaledger/hive.go/serializer/v2"
+	"github.com/iotaledger/hive.go/serializer/v2/serix"
 	"github.com/iotaledger/hive.go/serializer/v2/stream"
 	"github.com/iotaledger/hive.go/serializer/v2/typeutils"
 )
@@ -591,6 +592,19 @@ func utilFunc(cs *Case, in []byte) func() (int, error) {
 		case "ByteArray32FromBytes":
 			_, n, err := typeutils.ByteArray32FromBytes(in)
 			return n, err
+		// exported string-taking helpers of serix/numbers.go (the input bytes are the string)
+		case "serix.DecodeHex":
+			b, err := serix.DecodeHex(string(in))
+			if err == nil && len(b) > len(in) {
+				return len(b), fmt.Errorf("DecodeHex returned %d bytes for %d characters", len(b), len(in))
+			}
+			return -1, err
+		case "serix.DecodeUint256":
+			_, err := serix.DecodeUint256(string(in))
+			return -1, err
+		case "serix.DecodeUint64":
+			_, err := serix.DecodeUint64(string(in))
+			return -1, err
 		}
 		return 0, fmt.Errorf("unknown util op %s", cs.Tgt)
 	}
@@ -606,5 +620,55 @@ func genUtilCases(rng *rand.Rand) []Case {
 		}
 	}
 	out = append(out, mkCase("util", "Uint64FromBytes", false, nil, "nil"))
+	// string helpers: every string of length 0..3 over the structural alphabet, the value-dependent
+	// replacements used for JSON string nodes (lengths, numeric spellings, hex forms, 64 KiB), random text
+	for _, op := range []string{"serix.DecodeHex", "serix.DecodeUint256", "serix.DecodeUint64"} {
+		for _, str := range shortStrings() {
+			out = append(out, mkCase("util", op, false, []byte(str), "short-"+str))
+		}
+		for _, orig := range []string{"0x0102030405060708", "12345", "0x1"} {
+			for _, r := range stringRepls(orig, true) {
+				out = append(out, mkCase("util", op, false, []byte(r.v.(string)), "repl-"+r.name))
+			}
+		}
+		for _, n := range longSizes {
+			for pat := 1; pat <= 3; pat++ {
+				pre := []byte(nil)
+				if pat == 2 {
+					pre = []byte("0x")
+				}
+				out = append(out, mkLong("util", op, false, pre, n, pat, nil, fmt.Sprintf("long-%d@%d", pat, n), 0))
+			}
+		}
+		for i := 0; i < 300; i++ {
+			b := randBytes(rng, rng.Intn(12))
+			if i%2 == 0 {
+				for j := range b {
+					b[j] = shortAlphabet[int(b[j])%len(shortAlphabet)]
+				}
+				b = append([]byte("0x"), b...)
+			}
+			out = append(out, mkCase("util", op, false, b, "random"))
+		}
+	}
+	return out
+}
+
+const shortAlphabet = "0xX1ag-+.e"
+
+// shortStrings enumerates all strings of length 0..3 over shortAlphabet (1111 strings).
+func shortStrings() []string {
+	out := []string{""}
+	prev := []string{""}
+	for l := 1; l <= 3; l++ {
+		var cur []string
+		for _, p := range prev {
+			for i := 0; i < len(shortAlphabet); i++ {
+				cur = append(cur, p+shortAlphabet[i:i+1])
+			}
+		}
+		out = append(out, cur...)
+		prev = cur
+	}
 	return out
 }
